@@ -216,6 +216,16 @@ theorem run_wrong_runner_pays_nothing (cfg : DispCfg) (h : Int) (s : DispState) 
       · exact ih n (fun p hp => hst p (by simp [hp]))
   rw [key s.pending m.count hno]; rfl
 
+/-- a run pays out of the module account exactly what it pays to the recipients (the module account
+    is a blocked address of x/bank, as every module account is) -/
+theorem run_pays_from_escrow (cfg : DispCfg) (h : Int) (s s' : DispState) (l : Ledger) (m : MsgRun)
+    (os : List (Key × Rec × Outcome)) (hi : Inv cfg.module s l) (hblk : cfg.blocked cfg.module = true)
+    (hr : runDistribution cfg h s m = .ok (s', os)) (d : Denom) :
+    s'.bank.bal cfg.module d + paidAll os d = s.bank.bal cfg.module d := by
+  obtain ⟨s'', os', hr', _, _, hf⟩ := run_spec (h := h) hi m
+  rw [hr] at hr'; cases hr'
+  exact hf.bankModule hblk d
+
 /-- paying a claim-type record deletes that claim -/
 theorem claim_deleted_on_pay (cfg : DispCfg) (h : Int) (s s' : DispState) (l : Ledger) (m : MsgRun)
     (os : List (Key × Rec × Outcome)) (hi : Inv cfg.module s l)
